@@ -688,6 +688,14 @@ func removeNewLines(s string) string {
 	return strings.NewReplacer("\r", " ", "\n", " ").Replace(s)
 }
 
+// removeNUL replaces NUL, which no recipient may accept in a field value (RFC 9110 5.5), by a space.
+func removeNUL(s string) string {
+	if strings.IndexByte(s, 0) == -1 {
+		return s
+	}
+	return strings.ReplaceAll(s, "\x00", " ")
+}
+
 func (app *App) method(methodInt int) string {
 	if methodInt < 0 || methodInt >= len(app.config.RequestMethods) {
 		return "" // the request method is not one of the configured methods
